@@ -88,7 +88,7 @@ REFACTORINGS = ["convert_local_function_to_assign", "convert_function_to_assignm
                 "make_assignment_local"]
 LINE_NEUTRAL = LOWERING + REMOVAL_INJECTION + REFACTORINGS
 
-MARKER_RE = re.compile(rb"^[\"']M([0-9]+)[\"']$")
+MARKER_RE = re.compile(rb"^(?:[\"']M([0-9]+)[\"']|M([0-9]+)|7([0-9]{4}))$")
 
 
 class Markers:
@@ -99,6 +99,8 @@ class Markers:
         self.n += 1
         if kind == "string":
             return ('"M%d"' if self.n % 2 else "'M%d'") % self.n
+        if kind == "name":
+            return "M%d" % self.n
         return str(70000 + self.n)
 
 
@@ -109,7 +111,7 @@ def marker_lines(text):
     for t in toks:
         m = MARKER_RE.match(t.text)
         if m:
-            out.setdefault(int(m.group(1)), []).append(t.line)
+            out.setdefault(int(m.group(1) or m.group(2) or m.group(3)), []).append(t.line)
     return out
 
 
@@ -250,20 +252,23 @@ def run(ctx):
                                                                     "distinct_nontrivial": 0, "kinds": errors}
 
     # a displaced token according to the (matching) model is a concrete failing input as well
+    for cid, d in sorted(unfit, key=lambda x: len(jobs[x[0]][2]))[:6]:
+        print("DISPLACED", d, json.dumps(jobs[cid][1]), repr(jobs[cid][2][:300]), "->", repr(res[cid]["out"][:300]))
     for cid, d in unfit:
         kind, c, s, _ = jobs[cid]
         if not any(p[1] is c and p[2] is s for p in problems):
             problems.append((kind, c, s, res[cid]["out"], "a token with a recorded line is written below it (%s)" % d))
 
-    reported = set()
-    for kind, c, s, out, what in problems:
+    reported = {}
+    for kind, c, s, out, what in sorted(problems, key=lambda p: len(p[2])):
         key = classify_problem(c, s, out)
-        if key in reported:
+        tag = key or ("unclassified:" + kind)
+        reported[tag] = reported.get(tag, 0) + 1
+        if reported[tag] > (1 if key else 2):
             continue
-        reported.add(key)
         small = s
         if key is None or key not in ctx.known:
-            small = S.shrink(s, still_fails(c), max_tests=250)
+            small = S.shrink(s, still_fails(c, by_model="recorded line" in what), max_tests=300)
         so = _run([{"id": 0, "config": json.dumps(c), "src": small}], crate="dl-c04")[0].get("out")
         ctx.violation("%s: %s" % (kind, what), {"config": c, "source": small, "output": so, "original_source": s,
                                                 "original_output": out,
@@ -293,20 +298,63 @@ def first_bad_marker(c, s, out):
     return None
 
 
-def still_fails(c):
+def still_fails(c, by_model=False):
     def fails(candidate):
-        rr = _run([{"id": 0, "config": json.dumps(c), "src": candidate}], crate="dl-c04")[0]
+        rr = _run([{"id": 0, "config": json.dumps(c), "src": candidate, "trace": by_model}], crate="dl-c04")[0]
         if not rr["ok"]:
             return False
-        shift = 0
+        if by_model:
+            return bool(displaced_tokens(candidate, rr["trace"])) and classify_problem(c, candidate, rr["out"]) is None
         return first_bad_marker(c, candidate, rr["out"]) is not None and not any(
             isinstance(x, dict) and x.get("rule") == "append_text_comment" and x.get("location") != "end"
             for x in c.get("rules", []))
     return fails
 
 
+KEY_END_SEMI = "append-end-before-semicolon:local_a=1;"
+KEY_ELSEIF_TRUE = "unused-if-branch-constant-elseif:else-token-line"
+
+CONSTANT_WORDS = {b"true", b"false", b"nil", b"not", b"and", b"or"}
+
+
+def has_constant_elseif(src):
+    """an `elseif <condition> then` whose condition contains no name (so it may be constant)"""
+    try:
+        toks, _ = L.lex(src.encode("utf-8"))
+    except L.LexError:
+        return False
+    i = 0
+    while i < len(toks):
+        if toks[i].text == b"elseif" and toks[i].kind == "name":
+            j = i + 1
+            constant = True
+            depth = 0
+            while j < len(toks) and not (toks[j].text == b"then" and depth == 0):
+                t = toks[j]
+                if t.text in (b"if", b"function"):
+                    depth += 1
+                if t.kind == "name" and t.text not in CONSTANT_WORDS and t.text not in (b"if", b"then", b"else", b"elseif"):
+                    constant = False
+                j += 1
+            if constant and j > i + 1:
+                return True
+        i += 1
+    return False
+
+
 def classify_problem(c, s, out):
-    """class key of a failure: filled in as defects are confirmed (see known_findings.txt)"""
+    """class key of a failure (input-side, decidable)"""
+    rules = c.get("rules", [])
+    if any(isinstance(x, dict) and x.get("rule") == "append_text_comment" and x.get("location") == "end" for x in rules):
+        try:
+            toks, _ = L.lex(s.encode("utf-8"))
+        except L.LexError:
+            return None
+        if toks and toks[-1].text == b";":
+            return KEY_END_SEMI
+    names = [x if isinstance(x, str) else x.get("rule") for x in rules] if "rules" in c else DEFAULT_RULES
+    if "remove_unused_if_branch" in names and has_constant_elseif(s):
+        return KEY_ELSEIF_TRUE
     return None
 
 
@@ -319,3 +367,80 @@ def replay(ctx, path):
         res = _run([{"id": 0, "config": json.dumps(rep["config"]), "src": rep["source"]}], crate="dl-c04")
         print("darklua output now:", json.dumps(res[0]))
     return 0
+
+
+# ---- search aid only: python port of Model/TokenGen.placements (the verdict on these cases comes from Coq)
+
+def _is_single_line_comment(content):
+    if not content.startswith("--["):
+        return True
+    rest = content[3:]
+    k = rest.find("[")
+    if k < 0:
+        return True
+    b = content.encode("utf-8")
+    if k < 3:
+        return False
+    try:
+        sub = b[3:k].decode("utf-8")
+    except UnicodeDecodeError:
+        return False
+    if k > len(b):
+        return False
+    return not all(ch == "=" for ch in sub)
+
+
+def displaced_tokens(src, trace):
+    data = src.encode("utf-8")
+
+    def read(p):
+        if p[0] == 0:
+            return data[p[1]:p[2]].decode("utf-8", "replace"), p[3]
+        if p[0] == 1:
+            return bytes.fromhex(p[1]).decode("utf-8", "replace"), p[2]
+        return bytes.fromhex(p[1]).decode("utf-8", "replace"), None
+
+    line = 1
+    commenting = False
+    out = []
+
+    def trivia(ts):
+        nonlocal line, commenting
+        for is_comment, p in ts:
+            content, _ = read(p)
+            if is_comment:
+                single = _is_single_line_comment(content)
+                if not single and commenting:
+                    line += 1
+                    commenting = False
+                line += content.count("\n")
+                if single:
+                    commenting = True
+            else:
+                line += content.count("\n")
+                if commenting and "\n" in content:
+                    commenting = False
+
+    for e in trace:
+        if e["t"] == "tok":
+            trivia(e["l"])
+            content, ln = read(e["p"])
+            if content:
+                if commenting:
+                    line += 1
+                    commenting = False
+                if ln is not None:
+                    if ln > line:
+                        line = ln
+                    if line != ln:
+                        out.append((content, ln, line))
+                line += content.count("\n")
+            trivia(e["r"])
+        elif e["t"] == "sym":
+            if commenting:
+                line += 1
+                commenting = False
+            line += bytes.fromhex(e["c"]).count(b"\n")
+        else:
+            line += bytes.fromhex(e["c"]).count(b"\n")
+    return out
